@@ -9,8 +9,8 @@ import time
 from .common import BUILD, REPO, log, run
 
 STUB_FLAGS = ['-Z', 'stubbing']
-# every run prints the value vectors of a failed assertion (and of satisfied witnesses), so that a
-# counterexample does not need a second solver run before it can be replayed natively
+# concrete playback (value vectors of a failed assertion) is a SECOND run, only after a failure:
+# measured on s_reads_byid it takes the formula from 2.2 M to 10.5 M variables and cbmc from 2 to 9 GB
 PLAYBACK_FLAGS = ['-Z', 'concrete-playback', '--concrete-playback=print']
 
 
@@ -87,7 +87,7 @@ def run_harness(crate_dir, slot, harness, timeout, mem_gb=None, extra=None):
     tdir = os.path.join(BUILD, crate_tag(crate_dir) + '-t%d' % (slot + int(os.environ.get('VERIF_SLOT_BASE', '0') or 0)))
     os.makedirs(BUILD, exist_ok=True)
     logp = os.path.join(BUILD, 'log-%s-%s.txt' % (crate_tag(crate_dir), harness))
-    cmd = ['cargo', 'kani', '--target-dir', tdir] + STUB_FLAGS + PLAYBACK_FLAGS + ['--harness', 'proofs::' + harness, '--exact'] + [x for x in (extra or []) if x not in PLAYBACK_FLAGS]
+    cmd = ['cargo', 'kani', '--target-dir', tdir] + STUB_FLAGS + ['--harness', 'proofs::' + harness, '--exact'] + (extra or [])
     rc, out, secs = run(cmd, cwd=crate_dir, timeout=timeout, mem_gb=mem_gb, stdout_path=logp)
     res = parse_harness_output(out)
     res['harness'] = harness
